@@ -29,6 +29,8 @@ def run(tier, seed):
     t0 = time.time()
     quick = tier == "quick"
     col = harness.corpus_part(ID, "transport", sockcheck.check_transport)
+    col.merge(harness.enumeration_part("transport", lambda sh, n: [c for i, c in enumerate(sockcheck.fixed_transport_cases()) if i % n == sh], sockcheck.check_transport,
+                                       hash_of=lambda c: {k: v for k, v in c.items() if k not in ("frags", "tail")}))
     col.merge(harness.hypothesis_part("transport", sockcheck.peer_cases(), sockcheck.check_transport, 128 if quick else 3200, seed))
     col.merge(harness.hypothesis_part("session", sockcheck.session_cases(), sockcheck.check_session, 96 if quick else 2400, seed))
     return harness.finish(ID, tier, seed, LEVEL, col, RULE, ASSUMPTIONS, t0)
